@@ -53,6 +53,25 @@ PROPS = {
                    "with monotone operator programs and sparse/dense priorities. Oracle: at every operator start no existing uncommitted item of an earlier level / more urgent priority (events ordered by the simulator's logical clock) + C01 ledger.",
         level_note="Sampling over seeds. BulkSynchronous with conflict detection is a known finding (aborted items are retried outside pop()).",
         **tiers(8000, 120, 200000, 1500)),
+    "C03": dict(
+        jobs=[dict(harness="c03_doall", variant="a", weight=2), dict(harness="c03_doall", variant="n", weight=1)],
+        components=comp(), expected_probes=[],
+        design_ref="3.3",
+        level_text="Seeded exploration of sequences of 1-6 parallel regions with changing thread counts: do_all over vector / counting / list / set / forward_list / InsertBag (local iterators) / nested rows, "
+                   "chunk sizes 1, 3, 32, 4096, stealing on/off, on_each, raw ThreadPool::run with barrier, sleeping and fast-mode wake-up, sizes 0..4100, on synthetic 1-4 socket machines. "
+                   "Oracles: per-element counters (exactly once, HB-checked so concurrent double execution is also a race), started == finished == expected at return (join), "
+                   "tid set and tid->thread mapping of on_each, no straggler from an earlier region (counters reset per region).",
+        level_note="Sampling over seeds; steal paths are reached through chunk_size<1>/steal with uneven thread progress (stalls, PCT priorities).",
+        **tiers(8000, 120, 200000, 1500)),
+    "C04": dict(
+        jobs=[dict(harness="c04_termination", variant="a", weight=2), dict(harness="c04_termination", variant="n", weight=1)],
+        components=comp(), expected_probes=["loops"],
+        design_ref="3.4",
+        level_text="Seeded exploration of the ring detector (the system instance) and the tree detector (instantiated by the harness) driven by a synthetic work-moving model "
+                   "(mailboxes, late transfers to threads that already reported idle, batches) over 1-4 consecutive loops with changing thread counts. Oracles: outstanding-work ledger at every "
+                   "observation of globalTermination() (safety), announcement within 2*(3n+6) fair idle rounds after the last unit is consumed (bounded liveness), re-arming/reuse.",
+        level_note="Sampling over seeds; the liveness bound is counted in fair rounds (every thread reported idle once), which no schedule can inflate.",
+        **tiers(8000, 120, 200000, 1500)),
     "C05": dict(
         jobs=[dict(harness="c05_barrier", variant="a", weight=2), dict(harness="c05_barrier", variant="n", weight=1)],
         components=comp(), expected_probes=["region_fastmode", "region_sleepmode"],
